@@ -881,6 +881,9 @@ func (ix *Index) populateDeleteClaim(ctx context.Context, cl schema.Claim, vr *j
 		return nil
 	}
 	mm.Set(keyDeleted.Key(target, cl.ClaimDateString(), br), "")
+	// Only a delete claim that got its deleted row is remembered by the
+	// in-memory deletion caches, so that they match what a restart loads.
+	mm.noteDelete(cl)
 	if meta.CamliType == schema.TypeClaim {
 		return nil
 	}
@@ -910,7 +913,6 @@ func (ix *Index) populateClaim(ctx context.Context, fetcher *missTrackFetcher, b
 		if err := ix.populateDeleteClaim(ctx, claim, vr, mm); err != nil {
 			return err
 		}
-		mm.noteDelete(claim)
 		return nil
 	}
 
